@@ -198,6 +198,10 @@ func runPath(p *Program, pkg *ssa.Package, fn *ssa.Function, params map[string]i
 	}
 	res = &PathResult{AssertReach: map[string]int{}, Funcs: map[*ssa.Function]struct{}{}}
 	m.res = res
+	solver.BoundsOf = func(v *Term) ([2]int64, bool) {
+		b, ok := m.bounds[v]
+		return b, ok
+	}
 	defer func() {
 		res.Steps = m.steps
 		res.Trace = m.trace
